@@ -10,7 +10,7 @@ DROPPED = {"C07-A": "mutated the local-segment range check that fix 35b8d11 remo
            "OWN-ron-skip-none-post": "equivalent: the object still round-trips, C12 is not broken"}
 log = open("/tmp/wt/confirm_all.log").read() if os.path.exists("/tmp/wt/confirm_all.log") else ""
 for prop in sorted(os.listdir(SRC)):
-    if not os.path.isdir(os.path.join(SRC, prop)):
+    if not os.path.isdir(os.path.join(SRC, prop)) or re.fullmatch(r"B\d", prop):      # B<n> are the property-preserving changes (tools/import_benign.py)
         continue
     labels = ("A", "B", "C", "D", "E", "F") if prop != "OWN" else sorted(os.listdir(os.path.join(SRC, prop)))
     for x in labels:
